@@ -644,6 +644,37 @@ func init() {
 		}
 		return out
 	})
+	// the same service name and RPC names in a sibling package (…v1 → …v1x2), reusing the original
+	// request and response messages: the reuse spans two packages and two files
+	ops["rpc-reuse-across-packages-same-names"] = elemOp(func(x *c05Ctx, e *c05Elem) bool {
+		return e.Kind == "service" && len(e.Svc.Methods) >= 1 && strings.HasSuffix(e.File.Package, ".v1") && len(e.File.Options) == 0
+	}, func(x *c05Ctx, e *c05Elem) []c05Expect {
+		pkg := strings.TrimSuffix(e.File.Package, ".v1") + ".v2"
+		for _, f := range x.S.AllFiles() {
+			if f.Package == pkg {
+				return nil
+			}
+		}
+		clone := &gen.Service{Name: e.Svc.Name, Comment: e.Svc.Comment}
+		for _, m := range e.Svc.Methods {
+			if m.ClientStream || m.ServerStream {
+				return nil
+			}
+			cm := *m
+			cm.Options = nil
+			clone.Methods = append(clone.Methods, &cm)
+		}
+		f, _ := newSmallFile(x, e.Mod, strings.ReplaceAll(pkg, ".", "/")+fmt.Sprintf("/clone_%d.proto", x.fresh()), pkg, "proto3", nil)
+		f.Services = append(f.Services, clone)
+		var out []c05Expect
+		for _, r := range rpcElemsOf(x.S, e.Svc) {
+			out = append(out, exp1("RPC_REQUEST_RESPONSE_UNIQUE", r))
+		}
+		for _, r := range rpcElemsOf(x.S, clone) {
+			out = append(out, exp1("RPC_REQUEST_RESPONSE_UNIQUE", r))
+		}
+		return out
+	})
 	const empty = "google.protobuf.Empty"
 	ops["rpc-empty-request-two-rpcs"] = elemOp(twoRPCs, func(x *c05Ctx, e *c05Elem) []c05Expect {
 		rs := rpcElemsOf(x.S, e.Svc)
